@@ -485,7 +485,11 @@ var LogFunc = function.New(&function.Spec{
 			return cty.UnknownVal(cty.String), err
 		}
 
-		return cty.NumberFloatVal(math.Log(num) / math.Log(base)), nil
+		result := math.Log(num) / math.Log(base)
+		if math.IsNaN(result) {
+			return cty.UnknownVal(cty.Number), fmt.Errorf("the logarithm of %g in base %g is not a real number", num, base)
+		}
+		return cty.NumberFloatVal(result), nil
 	},
 })
 
@@ -515,7 +519,11 @@ var PowFunc = function.New(&function.Spec{
 			return cty.UnknownVal(cty.String), err
 		}
 
-		return cty.NumberFloatVal(math.Pow(num, power)), nil
+		result := math.Pow(num, power)
+		if math.IsNaN(result) {
+			return cty.UnknownVal(cty.Number), fmt.Errorf("%g to the power of %g is not a real number", num, power)
+		}
+		return cty.NumberFloatVal(result), nil
 	},
 })
 
